@@ -17,9 +17,13 @@ RULE = ("clock period pairs from {2..30} (equal, integer and non-integer ratios,
 TRUSTED = ["Migen's simulator treats MultiReg as two plain registers: metastability and sampling of a changing multi-bit bus are outside the model (that is what the gray code is for)",
            "AsyncResetSynchronizer / with_common_rst is not used by LiteDRAMNativePortCDC and not modelled"]
 ASSUMPTIONS = ["stream masters hold valid and payload until ready",
-               "get_port scenario: at most 10 controller words of read data outstanding (the crossbar cannot be back-pressured on read data; the CDC's read FIFO holds 16); a write's data is offered with its command; same-type commands inside one wide word ascend unless separated by cmd.last "
+               "get_port scenario: at most 16 controller words of read data outstanding = the CDC's requested rdata_depth (the crossbar cannot be back-pressured on read data); in a quarter of the runs the user takes no read data while a further read may still be issued; a write's data is offered with its command; same-type commands inside one wide word ascend unless separated by cmd.last "
                "(up-converter's documented limitation; in half of the runs only where the converter really merges, the master then holds its "
                "address lines while idle); controller stub: serial, waits for the master's wdata.valid"]
+
+
+GP_MAX_OUTSTANDING = 16      # controller words of read data a get_port master keeps in flight: the CDC's requested rdata_depth
+                             # (what LiteDRAMDMAReader's default fifo_depth reserves)
 
 
 def mism(r, where, **kw):
@@ -216,6 +220,7 @@ def getport_sim(c, rnd, ncycles, cd="usr"):
         idle = 0
         hold = 0
         nrd_issued = 0
+        stall = 0
         for cyc in range(ncycles * max(1, -(-c['ps'] // c['pu']))):
             if cv and (yield port.cmd.ready):
                 cv = 0; log["ncmd"] += 1
@@ -226,7 +231,7 @@ def getport_sim(c, rnd, ncycles, cd="usr"):
             if k < len(ops) and not cv and not wv and log["ncmd"] == k and not (k == c["nmain"] and hold is not None):
                 if gap > 0:
                     gap -= 1
-                elif ops[k][0] == "r" and (nrd_issued - len(log["rd"]) + 1) * max(1, udw // ndw) > 10:
+                elif ops[k][0] == "r" and (nrd_issued - len(log["rd"]) + 1) * max(1, udw // ndw) > GP_MAX_OUTSTANDING:
                     pass        # the crossbar cannot be back-pressured on read data: a master keeps its outstanding reads within
                                 # what it can absorb (here: the CDC's 16-word read FIFO), as the DMA reader does with its reservations
                 else:
@@ -242,7 +247,16 @@ def getport_sim(c, rnd, ncycles, cd="usr"):
             if not cv and c["stale"]:
                 yield port.cmd.addr.eq(rnd.getrandbits(len(port.cmd.addr))); yield port.cmd.we.eq(rnd.getrandbits(1))
             yield port.wdata.valid.eq(wv)
+            log["maxout"] = max(log.get("maxout", 0), (nrd_issued - len(log["rd"])) * max(1, udw // ndw))
             rready = int(rnd.random() < c["p_r"])
+            if c.get("storm") and k < len(ops) and ops[k][0] == "r" and stall < 24 and \
+                    (nrd_issued - len(log["rd"]) + (0 if cv else 1)) * max(1, udw // ndw) <= GP_MAX_OUTSTANDING:
+                # slow consumer: no read data is taken while a further read can still be issued within the outstanding-words limit
+                # (given up after 24 cycles without a command being accepted: a converter may need its data taken first)
+                rready = 0
+                stall = stall + 1 if cv else 0
+            else:
+                stall = 0 if not cv else stall
             yield port.rdata.ready.eq(rready)
             # after the main part: (optional one-cycle flush pulse,) wait until the controller side has been quiet, take a
             # snapshot of the memory, then go on with the read-back
@@ -325,7 +339,7 @@ def getport_sim(c, rnd, ncycles, cd="usr"):
         run_simulation(dut, {"usr": [user()], "sys": [ctrl()]}, clocks={"sys": (c["ps"], c["phs"]), "usr": (c["pu"], c["phu"])})
     return log
 
-def gp_ops(rnd, udw, ndw, aw, n, conservative=True, pulse=False):
+def gp_ops(rnd, udw, ndw, aw, n, conservative=True, pulse=False, storm=False):
     """main part + read-back of every touched address; returns (ops, nmain)"""
     ub = udw // 8
     ratio = max(1, ndw // udw)
@@ -353,6 +367,12 @@ def gp_ops(rnd, udw, ndw, aw, n, conservative=True, pulse=False):
             ops.append(("w", a, rnd.getrandbits(udw), we, int(rnd.random() < 0.2), gap)); touched.add(a)
         else:
             ops.append(("r", a, 0, 0, int(rnd.random() < 0.2), gap)); touched.add(a)
+    if storm:
+        # a run of back-to-back reads (the user lets them pile up to the CDC's read depth before it takes data, see getport_sim)
+        a0 = rnd.choice(words)
+        for j in range(48):
+            a = (a0 + j) % (1 << aw)
+            ops.append(("r", a, 0, 0, 0, 0)); touched.add(a)
     if pulse:
         # end the main part with an open group of writes: a complete word, then its first chunks again, no cmd.last
         wbase = (rnd.choice(words) // ratio) * ratio
@@ -418,9 +438,9 @@ def getport_job(args):
     udw = rnd.choice([8, 16, 32, 64, 128]) if idx % 3 else rnd.choice([x for x in (8, 16, 32) if x < ndw])
     pu, ps = rnd.choice([(4, 4), (4, 8), (8, 4), (6, 10), (10, 6), (2, 14), (14, 2), (6, 8), (4, 30), (30, 4)])
     c = dict(bankbits=1, dfi=dfi, rl=rnd.choice([1, 2, 4]), wl=rnd.choice([1, 2]), udw=udw, pu=pu, phu=rnd.randrange(pu), ps=ps, phs=rnd.randrange(ps),
-             p_r=rnd.choice([0.3, 0.8, 1.0]), stale=idx % 2 == 0, pulse=(idx % 4 == 1 and udw < ndw))
+             p_r=rnd.choice([0.3, 0.8, 1.0]), stale=idx % 2 == 0, pulse=(idx % 4 == 1 and udw < ndw), storm=(idx % 4 == 2))
     aw = 1 + 4 + 5 - 2 + (log2_int(ndw // udw) if udw < ndw else -log2_int(udw // ndw))
-    c["ops"], c["nmain"] = gp_ops(rnd, udw, ndw, aw, 40 if tier == "quick" else 120, c["stale"], c["pulse"])
+    c["ops"], c["nmain"] = gp_ops(rnd, udw, ndw, aw, 40 if tier == "quick" else 120, c["stale"], c["pulse"], c["storm"])
     st = rnd.getstate()
     log = getport_sim(c, rnd, 20000 if tier == "quick" else 60000)
     exp = gp_golden(c["ops"], udw)
@@ -432,6 +452,7 @@ def getport_job(args):
     r.coverage["getport_runs"] = {shape: 1}
     r.coverage["getport_native_commands"] = len(log["native"])
     r.coverage["getport_user_reads"] = len(log["rd"])
+    r.coverage["getport_outstanding_words_reached"] = {str(min(16, log.get("maxout", 0)) // 4 * 4): 1}
     what = None
     if not log["done"]:
         what = "the port did not take all %d commands (hang)" % len(c["ops"])
